@@ -725,6 +725,11 @@ def C19(ctx):
                 grid.add((N, 0, c, 1))
                 lim_items.append({"prog": p, "cfg": {"max_duration_ms": 0, "checkpoint_interval": c}})
                 lim_meta.append((bi, "max_duration", (N, 0, c, 1), None))
+                # both limits set: each one still applies
+                for m_ in (N + 3, 2):
+                    grid.add((N, m_, c, 1))
+                    lim_items.append({"prog": p, "cfg": {"max_permutations": m_, "max_duration_ms": 0, "checkpoint_interval": c}})
+                    lim_meta.append((bi, "both_limits", (N, m_, c, 1), None))
     exp = checkloop_expected(ctx, grid) if grid else {}
     LR = loomrun.run_items(os.path.join(ctx.work, "limits"), lim_items, jobs=ctx.jobs, tag="limits")
     for (bi, kind, val, ref), r in zip(lim_meta, LR):
@@ -925,13 +930,15 @@ def C16(ctx):
                         "(also failing) models in the same process, and alongside another model on a second OS thread",
                         "cross-OS-thread interference is sampled by repeated concurrent runs, not enumerated"]
     A, B = families.iso_base()
-    cfgA = {"want_paths": True, "want_seq": True, "trace_cap": 40, "iter_cap": 50000}
+    cfgA = {"want_paths": True, "want_seq": True, "want_sched": True, "trace_cap": 40, "iter_cap": 50000}
     cfgB = {"iter_cap": 50000}
     ref = loomrun.run_items(os.path.join(ctx.work, "solo"), [{"prog": a, "cfg": cfgA} for a in A], jobs=len(A), tag="solo")   # one process each
     for a, r in zip(A, ref):
         if r["end"] != "ok":
             raise tlc.ToolError(f"isolation base program does not complete: {a.get('name')} {r['end']} {r['msg']}")
     core.validate_traces(ctx, A, ref, label="trace_solo")
+    for a, r in zip(A, ref):
+        core.prefix_determinism(ctx, a, r, label="solo")
     # no clock / view of an earlier iteration is visible in a later one: over all iterations the result set is the
     # reference set (a leaked view over-synchronises later iterations and loses outcomes)
     lowerA, upperA = core.lower_upper(ctx, A, families.has_sc_access)
@@ -941,7 +948,8 @@ def C16(ctx):
 
     def same(x, y):
         return x["end"] == y["end"] and x["iters"] == y["iters"] and x["seq"] == y["seq"] and x["seq_keys"] == y["seq_keys"] \
-            and x["hook_events"] == y["hook_events"] and x["outcomes"] == y["outcomes"]
+            and x["hook_events"] == y["hook_events"] and x["outcomes"] == y["outcomes"] \
+            and x.get("sched_events") == y.get("sched_events")
     # B then A in one process (also: many models before A)
     items, meta = [], []
     for bi, b in enumerate(B):
